@@ -1,12 +1,12 @@
 SPECIFICATION Spec
 CONSTANTS
   Blocks <- MC_Blocks
-  Tier = "quick"
+  Tier = "tiny"
   MathNames <- MC_MathNames
   ResidChoices = {TRUE}
   MaxGenerations = 2
   AsFound_KUndefined = FALSE
-  AsFound_ChainedLagNoSeries = FALSE
+  AsFound_ChainedLagNoSeries = TRUE
   AsFound_OwnNamesAccepted = FALSE
 INVARIANT TypeOK
 INVARIANT C20_Closed
@@ -16,5 +16,4 @@ INVARIANT C20_HeaderTimeFirst
 INVARIANT C20_StepAppendsAll
 INVARIANT C20_StepSatisfiesEquations
 INVARIANT C20_RunsClean
-CONSTRAINT Emit
 CHECK_DEADLOCK FALSE
